@@ -148,9 +148,18 @@ package keeper
 //@ callers-assumed the perpetual flows thread the amm pool object they read at the start of the transaction; no join or exit happens in between
 //@ requires ammPoolHas(ctx, ammPool.PoolId) && ammPool.TotalShares.Amount == ammPoolRow(ctx, ammPool.PoolId).TotalShares.Amount && poolWF(ammPool)
 //@ ensures C02/total-shares-track-supply: err == nil ==> shareGap(ctx, p) == old(shareGap(ctx, p))
+//@ forall d Str
+//@ requires reserveOf(ammPool, d) == reserveOf(ammPoolRow(ctx, ammPool.PoolId), d)
+//@ ensures C01/book-and-bank-in-step: err == nil && notPoolAccount(senderAddress, ammPool.PoolId) ==> reserveGap(ctx, ammPool.PoolId, d) == old(reserveGap(ctx, ammPool.PoolId, d))
+//@ ensures C01/other-pools-in-step: err == nil && p != ammPool.PoolId && notPoolAccount(senderAddress, p) ==> reserveGap(ctx, p, d) == old(reserveGap(ctx, p, d))
 
 //@ func (Keeper).SendFromAmmPool
 //@ forall p Int
 //@ callers-assumed the perpetual flows thread the amm pool object they read at the start of the transaction; no join or exit happens in between
 //@ requires ammPoolHas(ctx, ammPool.PoolId) && ammPool.TotalShares.Amount == ammPoolRow(ctx, ammPool.PoolId).TotalShares.Amount && poolWF(ammPool)
 //@ ensures C02/total-shares-track-supply: err == nil ==> shareGap(ctx, p) == old(shareGap(ctx, p))
+//@ forall d Str
+//@ requires reserveOf(ammPool, d) == reserveOf(ammPoolRow(ctx, ammPool.PoolId), d)
+//@ ensures C01/book-and-bank-in-step: err == nil && notPoolAccount(receiverAddress, ammPool.PoolId) ==> reserveGap(ctx, ammPool.PoolId, d) == old(reserveGap(ctx, ammPool.PoolId, d))
+//@ ensures C01/other-pools-in-step: err == nil && p != ammPool.PoolId && notPoolAccount(receiverAddress, p) ==> reserveGap(ctx, p, d) == old(reserveGap(ctx, p, d))
+
